@@ -11,13 +11,19 @@ DRIVERS = ["drv_machine"]
 GENERATED = ["Handlers", "Markers"]
 
 
-def prefix_run(ctx, args, lines, ks):
+def prefix_run(ctx, args, lines, ks, pager=False, expect=None):
     """Feed the real binary line by line; after each k in ks wait until it blocks in read(0)
-    and return what it has written so far. Returns ({k: bytes}, final bytes, rc)."""
+    and return what it has written so far. Returns ({k: bytes}, final bytes, rc).
+    pager: the output goes through a pager process (`cat`, inheriting our pipe) as under `--paging always`;
+    expect: {k: rows that must be visible after k lines} — what arrives is awaited for a while (the pager copies
+    asynchronously) before the snapshot is taken."""
     env = dict(os.environ, HOME=os.path.join(os.path.dirname(ctx.delta), "..", "..", "home"), GIT_CONFIG_NOSYSTEM="1",
                DELTA_VERIF_FORCE_GUESS="none")
-    for k in ("GIT_CONFIG_PARAMETERS", "DELTA_FEATURES", "DELTA_PAGER", "PAGER", "BAT_PAGER", "DELTA_VERIF_HOOK"):
+    for k in ("GIT_CONFIG_PARAMETERS", "DELTA_FEATURES", "DELTA_PAGER", "PAGER", "BAT_PAGER", "DELTA_VERIF_HOOK", "LESS"):
         env.pop(k, None)
+    if pager:
+        args = [a for a in args if not a.startswith("--paging")] + ["--paging=always"]
+        env["DELTA_PAGER"] = "cat"
     p = subprocess.Popen([ctx.delta] + args, stdin=subprocess.PIPE, stdout=subprocess.PIPE, stderr=subprocess.PIPE, env=env)
     fd = p.stdout.fileno()
     fcntl.fcntl(fd, fcntl.F_SETFL, fcntl.fcntl(fd, fcntl.F_GETFL) | os.O_NONBLOCK)
@@ -52,6 +58,12 @@ def prefix_run(ctx, args, lines, ks):
             wait_blocked()
             time.sleep(0.001)
             drain()
+            if expect is not None:
+                for _ in range(300 if pager else 40):
+                    if got.count(b"\n") >= expect.get(i + 1, 0):
+                        break
+                    time.sleep(0.002)
+                    drain()
             snaps[i + 1] = got
     p.stdin.close()
     p.wait(timeout=20)
@@ -149,17 +161,24 @@ def run(ctx, rep):
             if o["state"] == "HunkZero" and (o["minus"] or o["plus"]):
                 rep.violation("context-line-did-not-flush", f"line {k}: line buffers not empty after an unchanged line (side-by-side)", case)
     # the real binary through a pipe, every prefix
-    sample = [m for m in meta if len(m[1]) <= 60][: ctx.n(12, 200)]
+    # (rows the model has written after k lines: the model agreed with the hooked implementation above, one row = one
+    #  output line; so after k lines the real binary must have written at least that many lines — directly and through a
+    #  pager process)
+    sample = []
+    for (cfg, lines), (impl, model) in zip(meta, res):
+        if len(lines) <= 60 and impl.ok and model.ok and not M.compare(cfg, impl, model) and len(sample) < ctx.n(16, 240):
+            sample.append((cfg, lines, {k + 1: o["out"] for k, o in enumerate(model.obs[:len(lines)])}, len(sample) % 2 == 1))
 
     def one(mt):
-        cfg, lines = mt
+        cfg, lines, expect, pager = mt
         lb = [l.encode() for l in lines]
         try:
-            return prefix_run(ctx, cfg.args(), lb, set(range(1, len(lb) + 1)))
+            return prefix_run(ctx, cfg.args(), lb, set(range(1, len(lb) + 1)), pager=pager, expect=expect)
         except Exception as e:  # noqa
             return ("error", str(e), None)
-    for (cfg, lines), r in zip(sample, parallel_map(one, sample, workers=8)):
-        case = dict(args=cfg.args(), model_cfg=cfg.d, input="\n".join(lines))
+    for (cfg, lines, expect, pager), r in zip(sample, parallel_map(one, sample, workers=8)):
+        case = dict(args=cfg.args(), model_cfg=cfg.d, input="\n".join(lines), pipe=True, pager=pager)
+        rep.count("pipe:" + ("through-pager" if pager else "direct"))
         if r[0] == "error":
             rep.count("pipe-driver-error"); continue
         snaps, final, rc = r
@@ -176,8 +195,13 @@ def run(ctx, rep):
                 rep.violation("output-revised", f"after {k} lines the bytes written do not extend those after the previous line", dict(case, k=k))
                 break
             prev = snaps[k]
-        # lag in rows: a context line that has been read must already be visible
-        kinds = [l[:1] for l in lines]
+        # lag in rows: what the model says has been written after k lines is visible at that point
+        for k in sorted(snaps):
+            have, want = snaps[k].count(b"\n"), expect.get(k, 0)
+            if have < want:
+                rep.violation("pipe-lag" + (":through-pager" if pager else ""),
+                              f"after {k} input lines {have} output lines have arrived, {want} have been rendered and emitted", dict(case, k=k))
+                break
 
 
 def replay(ctx, rep, obj):
@@ -186,5 +210,17 @@ def replay(ctx, rep, obj):
     lines = c["input"].split("\n")
     res = M.observe(ctx, [(cfg, [l.encode() for l in lines])])
     impl, model = res[0]
+    if c.get("pipe") and model.ok:
+        expect = {k + 1: o["out"] for k, o in enumerate(model.obs[:len(lines)])}
+        lb = [l.encode() for l in lines]
+        snaps, final, rc = prefix_run(ctx, cfg.args(), lb, set(range(1, len(lb) + 1)), pager=bool(c.get("pager")), expect=expect)
+        rep.case(key=("pipe-replay", tuple(lines)), nontrivial=True)
+        for k in sorted(snaps):
+            have, want = snaps[k].count(b"\n"), expect.get(k, 0)
+            print(k, "arrived", have, "emitted per model", want)
+            if have < want:
+                rep.violation(obj.get("signature", "pipe-lag"), f"after {k} input lines {have} output lines have arrived, {want} emitted", c)
+                break
+        return
     for k, o in enumerate(impl.obs):
         print(k, o["state"], o["written"], o["buffered"], o["minus"], o["plus"])
